@@ -52,6 +52,10 @@ def run_call(job):
     kw, gk, missing, unknown, mixed = skipped, None, skipped, skipped, skipped
     if len(args) == len(sig) and len(args) > 0:
         kw, gk = outcome(lambda: gd(**dict(zip(names, vals))))
+        # keyword arguments may be written in any order: the reversed order must give the same statement
+        kw2, gk2 = outcome(lambda: gd(**dict(reversed(list(zip(names, vals))))))
+        if kw['cls'] == 'ok' and (kw2['cls'] != 'ok' or gk2 != gk or list(gk2.parameters.items()) != list(gk.parameters.items())):
+            gk = None
         missing, _ = outcome(lambda: gd(**dict(list(zip(names, vals))[:-1])) if len(args) > 1 else gd(**{'zz': vals[0]}))
         unknown, _ = outcome(lambda: gd(**dict(list(zip(names, vals)) + [('zz', 1)])))
         mixed, _ = outcome(lambda: gd(vals[0], **dict(list(zip(names, vals))[1:])) if len(args) > 1 else gd(vals[0], zz=1))
